@@ -183,9 +183,17 @@ Example C01b_legacy_padding_in_scope :
 Proof. split; [left; reflexivity|intros _; split; [cbn; lia|reflexivity]]. Qed.
 Print Assumptions C01b_legacy_padding_in_scope.
 
-(* flexfec never emits more repair packets than configured, whatever the batch holds (legacy
-   padded media packets make the FEC packets covering them fall away) *)
+(* flexfec never emits more repair packets than configured, nor more than the 110 rows of its
+   coverage table (NumFECPackets above 110 is clamped) *)
 Theorem C01b_flexfec_repair_count_bounded : forall c nfec buf,
-  (length (encode c nfec buf) <= Z.to_nat nfec)%nat.
+  (length (encode c nfec buf) <= Z.to_nat nfec)%nat /\ (length (encode c nfec buf) <= 110)%nat.
 Proof. exact encode_length. Qed.
 Print Assumptions C01b_flexfec_repair_count_bounded.
+
+(* media packets in the legacy padding form are protected like any other: for a consecutive batch
+   of 1..109 packets the repair packets are min(nfec, 110), whatever the packets' padding form *)
+Theorem C01b_flexfec_protects_any_padding_form : forall c nfec buf,
+  consecutive (map (fun p => h_seq (p_hdr p)) buf) = true -> (1 <= length buf <= 109)%nat ->
+  encode c nfec buf = repeat (fec_pkt c) (Z.to_nat (Z.min nfec 110)).
+Proof. exact encode_count. Qed.
+Print Assumptions C01b_flexfec_protects_any_padding_form.
